@@ -220,9 +220,13 @@ def module_stream_conforms(H, case):
     codecs, to the module's public state; structural rules (SNAM 32 bytes, #CVAL = #attached
     controllers, 8 CMID bytes per value, CHNM < CHNK, options at their documented bits) hold."""
     cname, variant = case
-    ctx = H.choice("context", ["project", "synth"])
+    ctx = H.choice("context", ["project", "synth", "synth_of_attached_module"])
     m = _build_single(H, cname, in_project=(ctx == "project"))
     rw.sym_payload(H, m, variant=variant)
+    if ctx == "synth_of_attached_module":
+        # a .sunsynth written for a module that lives in a project has the same (stand-alone) layout
+        Project().attach_module(m)
+        ctx = "synth"
     if ctx == "project":
         p = Project()
         p.attach_module(m)
